@@ -202,9 +202,10 @@ func cliModel(bin, arg0 string, argv []string, fs *simos.FS, stdin []byte) (e Ex
 			keys = append(keys, t)
 		}
 	}
-	if f.set && len(keys) > 0 || f.mset && len(keys) > 0 {
-		return Expect{Why: "-setkeys together with -set/-mset is not a documented combination"}
-	}
+	// -setkeys together with -set or -mset (the way the v1 library needs it):
+	// the options are handed to the library in the order the usage text lists
+	// the flags (-set, -mset, -setkeys), so the array reading is the one of
+	// -set / -mset and the keys identify objects within it
 	readFile := func(name string) ([]byte, bool) {
 		if fs.Dirs[name] || fs.Unreadable[name] {
 			return nil, false
